@@ -155,7 +155,7 @@ def body_factory(tier, seed):
 
 
 def run(rep, tier, seed):
-    return C.standard_run(rep, PROP, ["Model/CaseDispatch.vo"], body_factory(tier, seed), rule=(
+    return C.standard_run(rep, PROP, ["Model/CaseDispatch.vo"], [body_factory(tier, seed + 1000 * i) for i in range(3 if tier == "thorough" else 1)], rule=(
         "one case = a finite frame sequence (valid CALLs with slow asynchronous handlers, replies, malformed and hostile "
         "frames from the C01 streams) fed by a scripted connection whose recv then raises (ConnectionClosed-like, OSError, "
         "CancelledError, EOFError), optionally while the send gate is held; real start(); distinct by (frames, exception, gate)"))
